@@ -62,6 +62,26 @@ def _opaque(t):
                                                  or (t[0] == "meth" and len(t) == 5 and t[1] in (("param", "self"), ("param", "cls")) and t[2] not in _ANCHORS))
 
 
+_PLAIN_CALLS = {"len", "bool", "int", "str", "sorted", "reversed", "set", "frozenset", "list", "tuple", "enumerate", "zip", "range", "max", "min",
+                "any", "all", "sum", "abs", "filter", "map", "dict"}
+
+
+def not_understood(v) -> bool:
+    """Does the reconstructed value contain a part the analysis did not follow -- a helper that could not be read as the value it
+    returns, a call of a function that is not a plain builtin, a list filled elsewhere, a value carried round a loop?  A verdict
+    "wrong" needs a value without such parts: an unexpected value that contains one is "cannot analyse"."""
+    for x in walk(v):
+        if not isinstance(x, tuple) or not x or not isinstance(x[0], str):
+            continue
+        if x[0] in ("unknown", "carried", "after", "mutated", "acc", "lambda", "record", "rectype", "raise"):
+            return True
+        if x[0] == "meth" and len(x) == 5 and (x[1] in (("param", "self"), ("param", "cls")) or x[1][0] == "global"):
+            return True
+        if x[0] == "call" and not (x[1][0] == "global" and x[1][1] in _PLAIN_CALLS):
+            return True
+    return False
+
+
 def scalar_constants(pkg, cls):
     """(module-level, class-level) scalar constants a method of `cls` may read: {name: ast.Constant} for names bound exactly once
     at module level of the class's file to a str / number literal, and for class attributes (MRO) bound to such a literal that no
@@ -195,6 +215,24 @@ def _leaves_arguments_alone(f) -> bool:
     return True
 
 
+def pure_function_resolver(pkg, file, cls):
+    """name -> FunctionDef of a MODULE-LEVEL helper function of `file` called by its bare name that may be read as the value it
+    returns (valueflow `func_resolver`): `def _wrap(expr): return f"(..) * ( {expr} ) / .."` is the f-string it returns.  Same
+    proviso as for helper methods: it leaves its arguments alone."""
+    import copy as _copy
+    folded = {}
+
+    def resolver(name, _pkg=pkg):
+        f = _pkg.functions.get((file, name))
+        if f is None:
+            return None
+        if name not in folded:
+            folded[name] = inline_constants(_copy.deepcopy(f), _pkg, cls)
+        f = folded[name]
+        return f if _leaves_arguments_alone(f) else None
+    return resolver
+
+
 class OdeModel:
     def __init__(self, tree):
         self.tree = tree
@@ -243,13 +281,41 @@ class OdeModel:
             return inline_constants(_copy.deepcopy(ci.node), _pkg, "TemplateLoader")
         # a local helper object that only carries the tables and the statements filling them is read as those statements
         func = scalarise_objects(func, _class_of)
+        from .normalize import scalarise_local_objects
+
+        def _class_of_b(f_, _pkg=pkg):
+            # a plain helper class of this module (`_Table(..)`) or nested in TemplateLoader (`self._Table(..)`)
+            nm = f_.id if isinstance(f_, ast.Name) else f_.attr if isinstance(f_, ast.Attribute) and isinstance(f_.value, ast.Name) and f_.value.id in ("self", "cls", "TemplateLoader") else None
+            if nm is None:
+                return None
+            ci = _pkg.classes.get(nm) if isinstance(f_, ast.Name) else _pkg.classes.get("TemplateLoader." + nm)
+            if ci is None or ci.file != FILE:
+                return None
+            node = copy_cls.get(ci.name)
+            if node is None:
+                node = copy_cls[ci.name] = inline_constants_in_class(_copy.deepcopy(ci.node), _pkg)
+            return node
+        copy_cls = {}
+
+        def inline_constants_in_class(node, _pkg):
+            for b in node.body:
+                if isinstance(b, ast.FunctionDef):
+                    inline_constants(b, _pkg, "TemplateLoader")
+            return node
+        # a local helper object that only carries the tables and the code filling them is that code, its fields plain locals
+        func = scalarise_local_objects(func, _class_of_b)
         func = inline_generator_loops(func, _stmt_resolver)
+        # items collected into a list of records first and consumed by one loop afterwards are produced where they are consumed
+        from .normalize import fuse_collected_loops
+        func = fuse_collected_loops(func, lambda name, _pkg=pkg: record_fields(_pkg, name) is not None)
         func = scalarise_records(func, lambda name, _pkg=pkg: record_fields(_pkg, name))
         func = inline_stmt_calls(func, _stmt_resolver)
         # `rhs, jac = self._stage(..)` with the stage put back leaves `rhs, jac = <the stage's locals>`: the same tables under one name
         from .normalize import coalesce_copies, join_piece_tables
         # a table of piece lists joined once at the end (`T[i].append(t)` .. `["".join(ps) for ps in T]`) is the table of accumulated texts
         func = join_piece_tables(func)
+        from .normalize import join_term_lists
+        func = join_term_lists(func)
         func = coalesce_copies(func)
         # a table kept as a list of rows and flattened once (`rows[r][c] += t` .. `list(chain.from_iterable(rows))`) is the flat table
         from .normalize import flatten_row_tables, flatten_keyed_tables
@@ -537,7 +603,8 @@ class OdeModel:
                 self.sites.append(Site(role, f, "init"))
                 continue
             if f.kind not in ("augstore", "store"):
-                self.sites.append(Site(role, f, "other", problems=[("viol", "unexpected-writer", f"{f.kind} on {f.target}")]))
+                # (a table built / edited by list methods instead of indexed accumulation is a shape the site rules do not read)
+                self.sites.append(Site(role, f, "other", problems=[("unrec", "unexpected-writer", f"{f.kind} on {f.target}: not an indexed store")]))
                 continue
             self.sites.append(self._site(self._as_accumulation(f), role))
 
@@ -652,7 +719,8 @@ class OdeModel:
         # a factor that is an element of another (pre-computed) list or an accumulated value is text built elsewhere: the term cannot
         # be reconstructed here -- that is "cannot analyse", not a wrong term
         opaque = [h for h in factors if kind in ("reaction", "heat", "cool") and
-                  any(isinstance(x, tuple) and x and x[0] in ("elem", "acc", "carried", "item", "after") for x in walk(h[1] if h[0] == "fmt" else h))]
+                  (any(isinstance(x, tuple) and x and x[0] in ("elem", "acc", "carried", "item", "after") for x in walk(h[1] if h[0] == "fmt" else h))
+                   or not_understood(h[1] if h[0] == "fmt" else h))]
         if opaque:
             s.problems.append(("unrec", "product", f"the term is pasted from a value built elsewhere ({show(opaque[0])[:80]}): not reconstructible"))
             return s
@@ -709,7 +777,8 @@ class OdeModel:
                                        + "; ".join(show(c)[:80] for c in bf["fifs"])))
                 else:
                     s.rowbase = ("other", s.row[1])
-                    s.problems.append(("viol", "row-domain",
+                    # (wrong when the row species is an understood value that is not an occurrence of this reaction's lists)
+                    s.problems.append(("unrec" if not_understood(s.row[1]) else "viol", "row-domain",
                                        f"row does not range over the reaction's own reactant/product list: {show(s.row[1])[:160]}"))
             elif s.row:
                 s.problems.append(("viol", "row", "reaction term stored into the temperature row"))
@@ -759,7 +828,7 @@ class OdeModel:
             return
         m = as_map(core)
         if m is None:
-            s.problems.append(("viol", "product", f"factor list is not one factor per element of a list: {show(core)[:100]}"))
+            s.problems.append(("unrec" if not_understood(core) else "viol", "product", f"factor list is not one factor per element of a list: {show(core)[:100]}"))
             return
         bv, body, base, ifs = m
         s.seq = {"bv": bv, "body": body, "base": base, "ifs": ifs, "minus": minus}
@@ -771,9 +840,9 @@ class OdeModel:
         else:
             want_base = ("attr", ent, "reactants")
             if base != want_base:
-                s.problems.append(("viol", "product-base", f"product ranges over {show(base)}, expected {show(want_base)}"))
+                s.problems.append(("unrec" if not_understood(base) else "viol", "product-base", f"product ranges over {show(base)}, expected {show(want_base)}"))
             if body != Y(bv):
-                s.problems.append(("viol", "product-body", f"factor is {show(body)}, expected y[IDX_<alias of the reactant>]"))
+                s.problems.append(("unrec" if not_understood(body) else "viol", "product-body", f"factor is {show(body)}, expected y[IDX_<alias of the reactant>]"))
         # removed element and column variable
         if minus is not None:
             colvar = None
